@@ -293,8 +293,11 @@ def part_c(res, rng, tier, seed, d):
         except Exception:  # noqa
             aged_dir = None
         states = [("available", dict(tle_dir=tle_dir, tle_name=tle_name, tle_thresh=40000))]
+        fallback_ang = None
         for tle_state, kw in states + [(
                               "too old", dict(tle_dir=tle_dir, tle_name=tle_name, tle_thresh=1e-6)),
+                              # a limit of 0 days: every element set is older than the limit (same fallback as above)
+                              ("too old (limit 0)", dict(tle_dir=tle_dir, tle_name=tle_name, tle_thresh=0)),
                               ("absent", dict(tle_dir=d, tle_name="no_such_%(satname)s.txt"))]:
             ctx2 = dict(ctx, tle=tle_state)
             try:
@@ -316,10 +319,17 @@ def part_c(res, rng, tier, seed, d):
                     mask = np.array(r.mask)
             except Exception as e:  # noqa
                 import traceback
-                res.violations.append(("get_angles raised %r with TLE data %s (angles must still be returned)" % (e, tle_state) if tle_state in ("too old", "absent")
+                res.violations.append(("get_angles raised %r with TLE data %s (angles must still be returned)" % (e, tle_state) if tle_state in ("too old", "too old (limit 0)", "absent")
                                        else "get_angles raised %r (TLE data %s)" % (e, tle_state), dict(ctx2, traceback=traceback.format_exc()[-400:])))
                 continue
             res.traces += 1
+            if tle_state == "too old":
+                fallback_ang = ang
+            elif tle_state == "too old (limit 0)" and fallback_ang is not None and not all(impl.nan_eq(a, b) for a, b in zip(ang, fallback_ang)):
+                k = next(i for i, (a, b) in enumerate(zip(ang, fallback_ang)) if not impl.nan_eq(a, b))
+                res.violations.append(("with a limit of 0 days the angles are not those of the TLE-free fallback (an element set older than the limit was used)",
+                                       dict(ctx2, array=["sat_azi", "sat_zenith", "sun_azi", "sun_zenith", "rel_azi"][k],
+                                            max_difference=float(np.nanmax(np.abs(ang[k] - fallback_ang[k]))))))
             check_common(res, ctx2, r, ang, lons, lats, mask, times_ms, tle_state)
             if not all(impl.nan_eq(a, b) for a, b in zip(ang, ang_again)):
                 k = next(i for i, (a, b) in enumerate(zip(ang, ang_again)) if not impl.nan_eq(a, b))
